@@ -17,6 +17,12 @@ def plan(tier):
         I.append(inst(f"action[{cls},d={d},composite(2,)]", 'harness.c03', 'action', dict(cls=cls, d=d, shape=(2,)), weight=5, timeout_s=900, opts=dict(max_vars=64)))
         I.append(inst(f"action[{cls},d={d},composite(2,) x transformations(2,)]", 'harness.c03', 'action', dict(cls=cls, d=d, shape=(2,), tshape=(2,)),
                       weight=8, timeout_s=900, opts=dict(max_vars=80)))
+    for cls in ['proj.Point', 'hyp.Point']:
+        I.append(inst(f"used-operands[{cls},d=2]", 'harness.c03', 'used_operands', dict(cls=cls, d=2 if cls != 'proj.Polygon' else 3), weight=10, timeout_s=900, opts=dict(max_vars=64)))
+    for cls in ['proj.Point', 'hyp.Point']:
+        for shape in [(1,), (2, 1), (1, 2)]:
+            I.append(inst(f"action[{cls},d=2,composite{shape}]", 'harness.c03', 'action', dict(cls=cls, d=2, shape=shape), weight=5, timeout_s=900, opts=dict(max_vars=64)))
+        I.append(inst(f"action[{cls},d=2,composite(2,) x transformations(1,)]", 'harness.c03', 'action', dict(cls=cls, d=2, shape=(2,), tshape=(1,)), weight=5, timeout_s=900, opts=dict(max_vars=64)))
     for cls in ['proj.Point', 'proj.PointPair', 'proj.Transformation', 'proj.Subspace']:
         I.append(inst(f"action[{cls},d=2,complex]", 'harness.c03', 'action', dict(cls=cls, d=2, complex_=True), weight=4, timeout_s=900))
     if not q:
@@ -31,7 +37,7 @@ def plan(tier):
                      "HyperbolicRepresentation wrappers) executed on symbolic invertible matrices A, B and symbolic objects of every class; "
                      "(A@B)@X vs A@(B@X), identity@X vs X, A.inv()@(A@X) vs X compared on primary, auxiliary and dual data as exact rational-function "
                      "identities (normal form / z3), plus result type and composite shape; holds for ALL invertible A, B and all object data in the stated dimension"),
-        bounds=dict(ambient_dimension="3 (quick); 2,3,4 (thorough)", classes=CLASSES, composite_shapes="() and (2,) objects; () and (2,) transformations",
+        bounds=dict(ambient_dimension="3 (quick); 2,3,4 (thorough)", classes=CLASSES, composite_shapes="(), (2,) objects for all classes, (1,), (2,1), (1,2) for points; (), (1,), (2,) transformations",
                     complex="projective classes at d=2 (d=3 Point in thorough)", representation_words="<=2 (quick) / <=3 (thorough) over a,b,A,B"),
         outside=["ConvexPolygon (scipy linprog / ConvexHull)", "dimensions > 4", "composite shapes beyond (2,)"],
         assumptions=["A, B invertible (det != 0)", "hyperbolic segments / polygons / tangent vectors have interior base points (|x|^2 < 1) so that the ideal-endpoint square roots are real"],
